@@ -59,7 +59,9 @@ pub struct Config {
     disabled: bool,
     user_fn: bool,
     /// which behaviour the user function has (0 = records and returns (1, arg); 1 = fails with
-    /// FunctionIdentifierNotFound(its own name); 2 = fails with FunctionIdentifierNotFound("max"))
+    /// FunctionIdentifierNotFound(its own name); 2 = fails with FunctionIdentifierNotFound("max");
+    /// 3..=6 = fails with WrongFunctionArgumentAmount / ExpectedFixedLengthTuple / DivisionError /
+    /// VariableIdentifierNotFound)
     uf_kind: u8,
     variable: bool,
     stage: usize,
@@ -104,7 +106,10 @@ impl Config {
                 let f = match self.uf_kind {
                     0 => UF::Tag(1),
                     1 => UF::NotFound(self.name.clone()),
-                    _ => UF::NotFound("max".into()),
+                    2 => UF::NotFound("max".into()),
+                    // typed library errors a builtin of the same name could raise as well: the
+                    // context function's own error comes back, nothing falls through to the builtin
+                    k => UF::Raise(k - 3),
                 };
                 c.funcs.insert(self.name.clone(), f);
             }
@@ -257,7 +262,7 @@ pub fn check(cfg: &Config, src: &str, is_call: bool, l: &mut Local) -> Outcome {
         "unknown name"
     };
     if !outcome_matches(&exp.result, &got) {
-        if cfg.user_fn && cfg.uf_kind != 0 && model.funcs.contains_key(&cfg.name) {
+        if cfg.user_fn && (cfg.uf_kind == 1 || cfg.uf_kind == 2) && model.funcs.contains_key(&cfg.name) {
             // The user function itself fails with FunctionIdentifierNotFound(..): its error must
             // come back unchanged. Root-cause key: does the implementation behave exactly as if the
             // function were not defined at all (builtin fallback / unknown function)?
@@ -375,7 +380,7 @@ fn configs() -> Vec<Config> {
     let mut v = Vec::new();
     for name in all_names() {
         for disabled in [false, true] {
-            for (user_fn, uf_kind) in [(false, 0u8), (true, 0), (true, 1), (true, 2)] {
+            for (user_fn, uf_kind) in [(false, 0u8), (true, 0), (true, 1), (true, 2), (true, 3), (true, 4), (true, 5), (true, 6)] {
                 for variable in [false, true] {
                     for stage in 0..STAGES.len() {
                         v.push(Config { name: name.clone(), kind: Kind::HashMap, disabled, user_fn, uf_kind, variable, stage });
@@ -420,7 +425,7 @@ pub fn run(rep: &Report) {
     rep.set_rule(
         "complete configuration matrix: 49 builtin names + 5 non-builtin names + 11 long identifiers (31..300 bytes) x {HashMapContext switch off/on x user \
          function named n present/absent x variable named n present/absent x (as built, after clone, after \
-         clear_functions, after clear, switch toggled twice, after clone_from into a context with the opposite switch, clear_functions / clear while another copy is alive), user function either recording or itself failing with FunctionIdentifierNotFound, EmptyContext, EmptyContextWithBuiltinFunctions} x call \
+         clear_functions, after clear, switch toggled twice, after clone_from into a context with the opposite switch, clear_functions / clear while another copy is alive), user function either recording or itself failing with FunctionIdentifierNotFound or with a typed library error (WrongFunctionArgumentAmount, ExpectedFixedLengthTuple, DivisionError, VariableIdentifierNotFound) that must come back instead of a fall-through to the builtin, EmptyContext, EmptyContextWithBuiltinFunctions} x call \
          forms n(x), n x, n(x, 2), n(x, 2, 3), n(true, x, 2), m n x, n m x, n(), n (), `n; n(1)` and variable forms n, n + 1, n - 1, `n, 1` with x \
          from {int, float, string, bool, variable, one-element tuple variable, empty tuple variable}; oracle: the reference interpreter's resolution rule (context \
          function first, builtin only if none and not disabled, else FunctionIdentifierNotFound(n) exactly; variables \
